@@ -7,6 +7,7 @@ import (
 	"bytes"
 	"encoding/json"
 	"fmt"
+	"net/url"
 	"path"
 	"strings"
 	"time"
@@ -18,7 +19,7 @@ func init() { register(propC01{}) }
 
 func (propC01) ID() string { return "C01" }
 
-var c01Segs = []string{"v1", "chat", "completions", "olla", "proxy", "api", "generate", "models", "x-y_z", "v1.2", "A~b", "embeddings"}
+var c01Segs = []string{"v1", "chat", "completions", "olla", "proxy", "api", "generate", "models", "x-y_z", "v1.2", "A~b", "embeddings", "50%25-off", "a%20b", "org%252Fname"}
 var c01Queries = []string{"", "a=1", "a=1&b=two", "q=%2F%2e%2e%2F&x=%41", "sel=a+b&amp=%26", "k=v;w=z", "arr[]=1&arr[]=2", "u=http%3A%2F%2Fh%2Fp%3Fq", "empty=&=novalue", "sp=%20%20"}
 
 func c01BodySize(r R) int {
@@ -254,6 +255,9 @@ func (propC01) Check(r *Run) []Violation {
 		disc := "/route=" + route
 		if e.Method != op.Method {
 			add("C01/method-altered"+disc, "op %d sent %s, backend %s received %s", c.OpID, op.Method, e.Backend, e.Method)
+		}
+		if dec, derr := url.PathUnescape(wantPath); derr == nil {
+			wantPath = dec // the backend's view is the decoded path; literal percent signs must survive every hop
 		}
 		if e.Path != wantPath {
 			add("C01/path-wrong"+disc, "op %d sent %s; backend %s (base %q preserve=%v) received path %q, expected %q", c.OpID, op.Path, e.Backend, ep.BasePath, ep.PreservePath, e.Path, wantPath)
